@@ -296,7 +296,10 @@ class Node:
             a, g = self.uniq[name]
             return dict(i=a, g=g)
         try:
-            return dict(i=model_name(appcfg.app_name(name)), g=0)
+            # the harness's own reading of <proid.app>-<instance no>-<unique id> (split from the right),
+            # not the helper of the code under test
+            app, inst, _uid = name.rsplit('-', 2)
+            return dict(i=model_name('%s#%s' % (app, inst)), g=0)
         except (IndexError, ValueError):
             return dict(i=name, g=0)
 
